@@ -209,6 +209,13 @@ func runC03(c *Ctx) {
 		}
 	}
 	for _, lf := range expandCases(resp, nil, 0) {
+		if cl, isCall := lf.val.(*ssa.Call); isCall {
+			// a synthesised reply built by a helper: newReply(q, rcode) { m := new(dns.Msg); m.SetReply(q); m.Rcode = rcode }
+			if qi, rc, okS := synthReplyCall(cl); okS {
+				checkSynthReply(c, lf.val, qi == ssa.Value(q), rc, lf.guards, errV)
+				continue
+			}
+		}
 		switch v := lf.val.(type) {
 		case *ssa.Call:
 			good := callName(v) == "(*"+relQctx+".Context).R" && v.Call.Args[0] == ssa.Value(newCtx)
@@ -241,39 +248,7 @@ func runC03(c *Ctx) {
 					}
 				}
 			}
-			onErr, onNil, onExt, noRespOpt := false, false, false, false
-			for _, g := range lf.guards {
-				if cm, ok := g.asCmp(); ok && cm.X == errV && isNilConst(cm.Y) && cm.Op == token.NEQ {
-					onErr = true
-				}
-				if cm, ok := g.asCmp(); ok && isNilConst(cm.Y) && cm.Op == token.EQL && cm.X != errV {
-					if cl, isC := cm.X.(*ssa.Call); isC && callName(cl) == "(*"+relQctx+".Context).RespOpt" {
-						noRespOpt = true
-					} else {
-						onNil = true
-					}
-				}
-				// resp.Rcode > 15 (an extended rcode)
-				if cm, ok := g.asCmp(); ok && cm.Op == token.GTR {
-					if k, isF := loadedField(cm.X); isF && k == "github.com/miekg/dns.MsgHdr.Rcode" {
-						if n, isC := constInt(cm.Y); isC && n == 15 {
-							onExt = true
-						}
-					}
-				}
-			}
-			want := int64(-1)
-			what := "?"
-			if onErr {
-				want, what = 2, "SERVFAIL on the error path"
-			} else if onExt && noRespOpt {
-				// D20: an rcode > 15 needs an OPT; a client without EDNS0 cannot get it (the message cannot even be packed)
-				want, what = 2, "SERVFAIL when an extended rcode cannot be sent (no OPT for this client)"
-			} else if onNil {
-				want, what = 5, "REFUSED when no answer was produced"
-			}
-			c.check(setReply && rcode == want && want > 0, "reply:synth:"+what, valuePos(v), "fresh SetReply(q) with "+what,
-				fmt.Sprintf("synthesised reply is wrong (SetReply(query): %v, rcode %d, expected %s): the client gets a reply without its id/question or with the wrong rcode", setReply, rcode, what))
+			checkSynthReply(c, v, setReply, rcode, lf.guards, errV)
 		default:
 			c.fail("reply:other", valuePos(lf.val), "the packed message can be %s", exprStr(lf.val))
 		}
@@ -347,6 +322,9 @@ func runC03(c *Ctx) {
 					udp = true
 					continue
 				}
+				if g.Derived {
+					continue
+				}
 				extra = guardText(g)
 			}
 			c.check(udp && extra == "" && truncCall.Call.Args[0] == resp, "truncate-iff-udp", instrPos(truncCall), "the packed reply is truncated exactly for UDP queries",
@@ -367,6 +345,9 @@ func runC03(c *Ctx) {
 						v, truth := g.asBool()
 						if k, _ := loadedField(v); strings.HasSuffix(k, ".QueryMeta.FromUDP") && !truth {
 							notUDP = true
+							continue
+						}
+						if g.Derived {
 							continue
 						}
 						extra2 = guardText(g)
@@ -717,7 +698,7 @@ func runC03R5(c *Ctx) {
 					if callName(v) == "(*"+relQctx+".Context).R" {
 						// response of a copy of this context
 						t3 := p.newTracer()
-						t3.throughCalls, t3.throughFields, t3.throughParams = false, false, false
+						t3.throughCalls, t3.throughFields, t3.throughParams = false, false, true // a worker function gets its copy as an argument
 						okCopy := true
 						for _, b := range t3.origins(v.Call.Args[0]) {
 							if c2, ok := b.(*ssa.Call); !ok || callName(c2) != "(*"+relQctx+".Context).Copy" {
@@ -1045,4 +1026,115 @@ func checkIdentityWriters(c *Ctx) {
 			}
 		})
 	}
+}
+
+// checkSynthReply classifies one synthesised reply by the conditions it is built under and checks its rcode.
+func checkSynthReply(c *Ctx, v ssa.Value, setReply bool, rcode int64, guards []guard, errV ssa.Value) {
+	onErr, onNil, onExt, noRespOpt := false, false, false, false
+	for _, g := range guards {
+		if cm, ok := g.asCmp(); ok && cm.X == errV && isNilConst(cm.Y) && cm.Op == token.NEQ {
+			onErr = true
+		}
+		if cm, ok := g.asCmp(); ok && isNilConst(cm.Y) && cm.Op == token.EQL && cm.X != errV {
+			if cl, isC := cm.X.(*ssa.Call); isC && callName(cl) == "(*"+relQctx+".Context).RespOpt" {
+				noRespOpt = true
+			} else {
+				onNil = true
+			}
+		}
+		// resp.Rcode > 15 (an extended rcode)
+		if cm, ok := g.asCmp(); ok && cm.Op == token.GTR {
+			if k, isF := loadedField(cm.X); isF && k == "github.com/miekg/dns.MsgHdr.Rcode" {
+				if n, isC := constInt(cm.Y); isC && n == 15 {
+					onExt = true
+				}
+			}
+		}
+	}
+	want := int64(-1)
+	what := "?"
+	if onErr {
+		want, what = 2, "SERVFAIL on the error path"
+	} else if onExt && noRespOpt {
+		// D20: an rcode > 15 needs an OPT; a client without EDNS0 cannot get it (the message cannot even be packed)
+		want, what = 2, "SERVFAIL when an extended rcode cannot be sent (no OPT for this client)"
+	} else if onNil {
+		want, what = 5, "REFUSED when no answer was produced"
+	}
+	c.check(setReply && rcode == want && want > 0, "reply:synth:"+what, valuePos(v), "fresh SetReply(q) with "+what,
+		fmt.Sprintf("synthesised reply is wrong (SetReply(query): %v, rcode %d, expected %s): the client gets a reply without its id/question or with the wrong rcode", setReply, rcode, what))
+}
+
+// synthReplyCall: cl calls a helper of the analysed module whose every return hands back a message it allocated,
+// on which it called SetReply(<parameter qi>) and stored <parameter ri or a constant> into Rcode, and nothing else.
+// Returns the query argument and the rcode (constant argument or constant of the helper) at this call site.
+func synthReplyCall(cl *ssa.Call) (ssa.Value, int64, bool) {
+	h := cl.Call.StaticCallee()
+	if h == nil || len(h.Blocks) == 0 || !inMosdns(h) {
+		return nil, 0, false
+	}
+	var al *ssa.Alloc
+	for _, r := range returnsOf(h) {
+		if len(r.Results) != 1 {
+			return nil, 0, false
+		}
+		a, ok := r.Results[0].(*ssa.Alloc)
+		if !ok || (al != nil && al != a) {
+			return nil, 0, false
+		}
+		al = a
+	}
+	if al == nil || !strings.HasSuffix(typeKey(al.Type()), "dns.Msg") {
+		return nil, 0, false
+	}
+	qi, ri := -1, -1
+	rconst := int64(-1)
+	clean := true
+	eachInstr(h, func(in ssa.Instruction) {
+		switch x := in.(type) {
+		case *ssa.Call:
+			if callName(x) == "(*github.com/miekg/dns.Msg).SetReply" && x.Call.Args[0] == ssa.Value(al) {
+				for i, prm := range h.Params {
+					if x.Call.Args[1] == ssa.Value(prm) {
+						qi = i
+					}
+				}
+				return
+			}
+			clean = false
+		case *ssa.Store:
+			if fieldBase(x.Addr) != ssa.Value(al) {
+				clean = false
+				return
+			}
+			if k, _ := fieldKey(x.Addr); k != "github.com/miekg/dns.MsgHdr.Rcode" {
+				clean = false
+				return
+			}
+			if n, isC := constInt(x.Val); isC {
+				rconst = n
+				return
+			}
+			for i, prm := range h.Params {
+				if x.Val == ssa.Value(prm) {
+					ri = i
+				}
+			}
+		}
+	})
+	if !clean || qi < 0 || qi >= len(cl.Call.Args) {
+		return nil, 0, false
+	}
+	rc := rconst
+	if ri >= 0 && ri < len(cl.Call.Args) {
+		n, isC := constInt(cl.Call.Args[ri])
+		if !isC {
+			return nil, 0, false
+		}
+		rc = n
+	}
+	if rc < 0 {
+		return nil, 0, false
+	}
+	return cl.Call.Args[qi], rc, true
 }
